@@ -195,13 +195,17 @@ def _lemma(ctx, cfg):
     # estimator averaged over independent pairs: apply([s1;s2])[0] = Re[w(s1',s1) w(s2',s2)],
     # w(a,b) = rho(a,b)/rho(b,b) (pure: psi(a)/psi(b)), p(s) = rho(s,s)
     tot = ZERO
+    done = set()
     for s1 in range(D):
         for s2 in range(D):
             s1p = compose(s2, s1, A, Bc)
             s2p = compose(s1, s2, A, Bc)
-            w1 = rho[s1p][s1] * alg.inv(rho[s1][s1])
-            w2 = rho[s2p][s2] * alg.inv(rho[s2][s2])
-            tot = tot + rho[s1][s1] * rho[s2][s2] * alg.re(w1 * w2)
+            for (a_, b_) in ((s1p, s1), (s2p, s2)):
+                if (a_, b_) not in done:
+                    done.add((a_, b_))
+                    # p(s) w(s',s) == rho(s',s): the importance weight times the sampling probability
+                    ctx.eq("lemma/p(s) * w(s',s) == rho(s',s)[%d,%d]" % (a_, b_), rho[b_][b_] * (rho[a_][b_] * alg.inv(rho[b_][b_])), rho[a_][b_], z3_confirm=False)
+            tot = tot + alg.re(rho[s1p][s1] * rho[s2p][s2])
     ctx.eq("lemma/swap average == tr(rho_A^2)", tot, pA, z3_confirm=False)
     if flav == "pure":
         pC, _trC, _r, _q = purity(Bc)
